@@ -237,6 +237,27 @@ fn enumerate_mutants(signed: &Value) -> Vec<Mutant> {
                 let mut c = root.clone();
                 get_mut(&mut c, path).as_object_mut().unwrap().insert("zz-inserted".into(), json!(1));
                 out.push(Mutant::Val(format!("insert member at /{}", path.join("/")), c));
+                // insert a member whose name is a spelling variant of a sibling's name (backslashes,
+                // Unicode decomposition): if the canonical form identifies the two, the insertion
+                // hides behind the sibling and the signatures stay valid
+                for (k, x) in m {
+                    let mut variants = vec![format!("{k}\\"), format!("\\{k}")];
+                    if k.contains('\u{e9}') {
+                        variants.push(k.replace('\u{e9}', "e\u{301}"));
+                    }
+                    if k.contains("e\u{301}") {
+                        variants.push(k.replace("e\u{301}", "\u{e9}"));
+                    }
+                    for v in variants {
+                        if m.contains_key(&v) {
+                            continue;
+                        }
+                        let alt = if x.is_object() || x.is_array() { json!({"inserted": true}) } else { mutate_scalar(x) };
+                        let mut c = root.clone();
+                        get_mut(&mut c, path).as_object_mut().unwrap().insert(v.clone(), alt);
+                        out.push(Mutant::Val(format!("insert member {v:?} (a spelling variant of sibling {k:?}) at /{}", path.join("/")), c));
+                    }
+                }
                 for (k, x) in m {
                     // delete
                     let mut c = root.clone();
@@ -332,7 +353,7 @@ fn build(case: &Case, delegation_extras: bool) -> forge::Built {
     s.pin_snap_len = false;
     s.pin_targets_hash = false;
     s.pin_targets_len = false;
-    s.targets = vec![("top.txt".into(), b"top".to_vec()), ("dir/second.txt".into(), b"second".to_vec())];
+    s.targets = vec![("top.txt".into(), b"top".to_vec()), ("dir/second.txt".into(), b"second".to_vec()), ("caf\u{e9}.txt".into(), b"cafe".to_vec())];
     let paths = if case.hash_prefix_delegation { PathSpec::HashPrefixes(vec!["".into()]) } else { PathSpec::Paths(vec!["d/*".into(), "e?".into()]) };
     let mut d1 = DelegNode::new("d1", SHARED, paths);
     d1.targets = vec![("d/a.txt".into(), b"a".to_vec())];
@@ -344,7 +365,7 @@ fn build(case: &Case, delegation_extras: bool) -> forge::Built {
             if custom && (role == "targets" || role == "d1") {
                 if let Some(t) = signed["targets"].as_object_mut() {
                     for (_, e) in t.iter_mut() {
-                        e["custom"] = json!({"note": "n", "nested": {"a": [1, 2]}, "flag": false});
+                        e["custom"] = json!({"note": "n", "nested": {"a": [1, 2]}, "flag": false, "r\u{e9}sum\u{e9}": "x"});
                     }
                 }
             }
